@@ -66,7 +66,7 @@ def build_field(df, f, emb, vs, dims=None, with_subs=True):
     arr = fldmod.unflatten(f["vals"], m["n"], dtype=float) * vs
     valid = fldmod.unflatten_mask(f["valid"], m["n"])
     vd = list(f["labels"]) or None
-    return df.Field(mesh, nvdim=int(f["nv"]), value=arr, vdims=vd, valid=valid)
+    return fldmod.lived(df.Field(mesh, nvdim=int(f["nv"]), value=arr, vdims=vd, valid=valid), int(np.sum(mesh.n)) + int(f["nv"]) + int(np.sum(valid)))
 
 
 def expected_vals(f, vs):
